@@ -13,7 +13,7 @@ FAMILIES = ["generic", "bonded", "near_identical", "near_planar", "mirror", "hel
 N_ATOMS = [3, 4, 5, 6, 7, 8, 9, 10, 11, 12, 13, 16, 17, 63, 64, 65, 1001]
 N_ATOMS_QUICK = [3, 4, 5, 7, 64, 65]
 TRANSLATIONS = [0.0, 0.37, 10.0, 300.0]
-SELECTIONS = ["none", "equal", "order", "diffsets"]
+SELECTIONS = ["none", "equal", "order", "diffsets", "all", "allperm"]
 N_DECOY = 5          # extra atoms in the target trajectory when a selection is used
 N_DECOY_REF = 8      # extra atoms in the reference trajectory for "diffsets"
 
@@ -146,6 +146,15 @@ def selection(kind, n, seed):
     if kind == "none":
         sl = np.arange(n)
         return dict(n_target=n, n_ref=n, ai=None, rai=None, tgt_slot=sl, ref_slot=sl)
+    if kind == "all":
+        # every atom, listed explicitly: an index array of length n_atoms (a copy of the same shape as xyz)
+        sl = np.arange(n)
+        return dict(n_target=n, n_ref=n, ai=sl.copy(), rai=sl.copy(), tgt_slot=sl, ref_slot=sl)
+    if kind == "allperm":
+        # two trajectories holding the same atoms in different orders; the index lists are permutations of ALL atoms
+        p = np.roll(np.arange(n)[::-1], 1 + seed % 2)
+        q = np.concatenate([np.arange(1, n, 2), np.arange(0, n, 2)])
+        return dict(n_target=n, n_ref=n, ai=p, rai=q, tgt_slot=p, ref_slot=q)
     nt = n + N_DECOY
     # a deterministic subset of size n out of nt, not contiguous
     drop = sorted(set(int(x) for x in np.floor((np.arange(N_DECOY) + 0.5 + 0.13 * (seed % 3)) * nt / N_DECOY)))
